@@ -9,7 +9,7 @@ import time
 
 import z3
 
-QUICK_MS = int(os.environ.get("PYVC_TIMEOUT_MS", "20000"))
+QUICK_MS = int(os.environ.get("PYVC_TIMEOUT_MS", "40000"))      # final full attempt; the first attempt is capped at 6 s
 
 
 class Result:
